@@ -394,7 +394,7 @@ pub fn run(tier: Tier, shard: Shard, stats: &mut Stats, case: &mut u64) {
                         }
                         match r {
                             Err((class, detail)) => stats.violation(Violation { class: format!("{name}: {class}"), config: name.to_string(), history: hist, detail }),
-                            Ok((h, nt)) => stats.state(h, nt && !script.is_empty()),
+                            Ok((h, nt)) => stats.state_outcome(h, nt && !script.is_empty()),
                         }
                     }
                 }
@@ -456,7 +456,7 @@ pub fn run(tier: Tier, shard: Shard, stats: &mut Stats, case: &mut u64) {
                 match r {
                     Err(p) => stats.violation(Violation { class: format!("panic: {}", panic_class(&p)), config: "Stream".into(), history: hist, detail: p }),
                     Ok(Err((class, detail))) => stats.violation(Violation { class: format!("Stream: {class}"), config: "Stream".into(), history: hist, detail }),
-                    Ok(Ok((h, nt))) => stats.state(h, nt),
+                    Ok(Ok((h, nt))) => stats.state_outcome(h, nt),
                 }
             }
         }
